@@ -128,10 +128,8 @@ fn main() {
         usage();
     }
     let id = args[1].clone();
-    let tier = match std::env::var("VERIF_TIER") {
-        Ok(t) if t == "quick" || t == "thorough" => t,
-        _ => args[2].clone(),
-    };
+    // the tier named on the command line wins; VERIF_TIER is only a fallback
+    let tier = args[2].clone();
     if tier != "quick" && tier != "thorough" {
         usage();
     }
